@@ -91,6 +91,36 @@ func Load(repo string, env []string) (*Prog, error) {
 			p.funcs[k] = fn
 		}
 	}
+	// generic methods that are never instantiated in non-test code are not in AllFunctions: add every declared
+	// function of the module packages through its types.Func
+	var addFn func(fn *ssa.Function)
+	addFn = func(fn *ssa.Function) {
+		if fn == nil || p.allFns[fn] {
+			return
+		}
+		p.allFns[fn] = true
+		if k := FuncKey(fn); k != "" && inModule(fn) {
+			if fn.Blocks != nil {
+				p.modFns = append(p.modFns, fn)
+			}
+			if _, ok := p.funcs[k]; !ok {
+				p.funcs[k] = fn
+			}
+		}
+		for _, a := range fn.AnonFuncs {
+			addFn(a)
+		}
+	}
+	for path, pk := range p.All {
+		if path != modPath && !strings.HasPrefix(path, modPath+"/") || pk.TypesInfo == nil {
+			continue
+		}
+		for _, o := range pk.TypesInfo.Defs {
+			if f, ok := o.(*types.Func); ok {
+				addFn(prog.FuncValue(f))
+			}
+		}
+	}
 	sort.Slice(p.modFns, func(i, j int) bool { return p.modFns[i].String() < p.modFns[j].String() })
 	return p, nil
 }
@@ -178,6 +208,9 @@ func FuncKey(fn *ssa.Function) string {
 	}
 	if fn.Origin() != nil {
 		return FuncKey(fn.Origin())
+	}
+	if fn.Synthetic == "package initializer" && fn.Pkg != nil {
+		return shortPkg(fn.Pkg.Pkg.Path()) + ".init"
 	}
 	if fn.Synthetic != "" {
 		return ""
